@@ -160,7 +160,7 @@ def corr_ops(ctx):
     for ty in G.TYPES:
         base = '[' + G.SEC[ty] + ']\n' + ''.join(l + '\n' for l in G.BASE[ty])
         for k in SPEC['documented'][G.SUP[ty]]:
-            for v in (G.VALS if ctx.thorough else rnd.sample(G.VALS, 6)):
+            for v in (G.VALS if ctx.thorough else rnd.sample(G.VALS, 24)):
                 ops.append(f'convert\t0\t0\t{hx("/q/a." + ty)}\t{hx(base + k + "=" + v + chr(10))}')
     return ops
 
